@@ -374,7 +374,13 @@ def selftest_decoder(run, impl_exe, model, streams, thorough):
 
 
 def check(run):
+    import time
     thorough = run.tier == "thorough"
+    t0 = time.time()
+    phases = {}
+
+    def mark(name):
+        phases[name] = round(time.time() - t0 - sum(phases.values()), 1)
     ok_proof, broken = vlib.proof_stage(run, "props/C01.v", ["Format"],
                                         extra_trusted=["static dictionary + transform list of RFC 7932 taken from brotli-decompressor-4.0.3 (tools/gen_c01_dict.py), parameters of the decoder spec",
                                                        "brotli-decompressor 4.0.3 and Google libbrotlidec 1.0.9 as reference decoders (they also validate the decoder spec D in both directions)"])
@@ -396,6 +402,7 @@ def check(run):
         run.report("proof-obligation", {"stage": "model build"}, {"log": (logx + logm)[-2000:]}, broken="executable model could not be built", found_input=False)
         return
     rng = run.rng
+    mark("proof+builds")
     # ------------------------------------------------------------------ streams
     cases = gen_cases(run, thorough)
     lines = [c for c, _ in cases]
@@ -406,7 +413,9 @@ def check(run):
         if f and f.get("fin") == "1" and not f.get("out", "-").startswith("-"):
             dreq.append("D 1 " + f["out"])
             didx.append(k)
+    mark("streams: implementation + reference decoders")
     dres = dict(zip(didx, vlib.run_lines(model, dreq, timeout=2400)))
+    mark("streams: extracted decoder D")
     # configuration correspondence on the same cases
     creq = []
     for (c, meta), o in zip(cases, impl):
@@ -583,6 +592,7 @@ def check(run):
             report("correspondence", case, {"impl": f["out"][:300], "model": m[:300]},
                    broken="stored-stream writer: model/MetaBlockHeader.v + store_chunks vs the bytes the encoder emitted for uncompressed meta-blocks", found_input=False)
     run.note("streams: %d cases, %s; stored-stream writer model: %s" % (len(cases), stats, stored_stats))
+    mark("streams: verdicts + stored-writer model")
     # ------------------------------------------------------------------ model correspondence: configuration sweep, WrapPosition, ring buffer
     cfg_lines = []
     for q in list(range(-3, 14)) + [99, (1 << 31) - 1, -(1 << 31)]:
@@ -665,8 +675,10 @@ def check(run):
                            broken="ring buffer: model/RingBuf.v vs RingBufferWrite (position, mask, allocated size or contents differ)", found_input=False)
     run.note("model correspondence: %d configurations (%d bad), %d WrapPosition points (%d bad), %d ring-buffer write sequences (%d bad)"
              % (len(cfg_lines), ncfg_bad, len(wlines), nw_bad, len(blines), nb_bad))
+    mark("model correspondence")
     # ------------------------------------------------------------------ decoder spec self-test on malformed streams
     st = selftest_decoder(run, impl_exe, model, selftest_pool, thorough)
+    mark("decoder-spec self-test")
     run.note("decoder-spec self-test: %s" % st)
     # ------------------------------------------------------------------ thorough: past 2^30 / 2^31 / 2^32 input positions
     giant = []
@@ -694,6 +706,8 @@ def check(run):
                         reach("lgwin30_ring_buffer_lap_past_2^31")
         else:
             run.note("release harness build failed: %s" % logr[-300:])
+    mark("giant runs")
+    run.cov["phase_seconds"] = phases
     # ------------------------------------------------------------------ evidence
     expected = (["ring_buffer_wrapped", "input_longer_than_window", "one_pass_fragment_backend(q0/q1)", "ring_buffer_backend", "several_backend_invocations",
                  "flush_mid_stream", "output_buffer_1_to_3_bytes", "output_via_take_output", "empty_input", "input_1_to_3_bytes",
